@@ -183,3 +183,81 @@ Proof. vm_compute. reflexivity. Qed.
 
 Example crc32_check_value : crc32 [49; 50; 51; 52; 53; 54; 55; 56; 57] = 3421780262.  (* "123456789" -> 0xcbf43926 *)
 Proof. vm_compute. reflexivity. Qed.
+
+(* ---- the table form equals the bit-serial form ---- *)
+
+Lemma step1_double y : 0 <= y -> crc_step1 (2 * y) = y.
+Proof.
+  intros Hy. unfold crc_step1.
+  assert (Ho : Z.odd (2 * y) = false) by (rewrite Z.odd_mul; reflexivity).
+  rewrite Ho.
+  rewrite Z.shiftr_div_pow2 by lia. change (2 ^ 1) with 2.
+  rewrite Z.mul_comm. apply Z.div_mul. lia.
+Qed.
+
+Lemma step8_shift h : 0 <= h -> crc_step8 (h * 256) = h.
+Proof.
+  intros Hh. unfold crc_step8.
+  replace (h * 256) with (2 * (2 * (2 * (2 * (2 * (2 * (2 * (2 * h)))))))) by lia.
+  repeat (rewrite step1_double by lia). reflexivity.
+Qed.
+
+Lemma split_low_high x : 0 <= x -> x = Z.lxor (x mod 256) (x / 256 * 256).
+Proof.
+  intros Hx. rewrite <- Z.add_nocarry_lxor.
+  - pose proof (Z.div_mod x 256 ltac:(lia)). lia.
+  - apply Z.bits_inj'. intros n Hn. rewrite Z.land_spec, Z.bits_0.
+    destruct (Z_lt_ge_dec n 8).
+    + change 256 with (2 ^ 8). rewrite Z.mul_pow2_bits_low by lia. apply andb_false_r.
+    + change 256 with (2 ^ 8). rewrite Z.mod_pow2_bits_high by lia. reflexivity.
+Qed.
+
+Lemma step8_split x : 0 <= x -> crc_step8 x = Z.lxor (crc_step8 (x mod 256)) (x / 256).
+Proof.
+  intros Hx. rewrite (split_low_high x Hx) at 1. rewrite step8_lxor.
+  rewrite step8_shift by (apply Z.div_pos; lia). reflexivity.
+Qed.
+
+(* the 256-entry sweep: every table entry is the 8-step register started from its index *)
+Lemma table_sweep :
+  forallb (fun k => nth k crc_table 0 =? crc_step8 (Z.of_nat k)) (seq 0 256) = true.
+Proof. vm_compute. reflexivity. Qed.
+
+Lemma table_entry m : 0 <= m < 256 -> nth (Z.to_nat m) crc_table 0 = crc_step8 m.
+Proof.
+  intros Hm. pose proof table_sweep as H. rewrite forallb_forall in H.
+  specialize (H (Z.to_nat m)). rewrite Z2Nat.id in H by lia.
+  apply Z.eqb_eq. apply H. apply in_seq. lia.
+Qed.
+
+Theorem crc_byte_tab_eq c b : 0 <= c -> 0 <= b < 256 -> crc_byte_tab c b = crc_byte c b.
+Proof.
+  intros Hc Hb. unfold crc_byte_tab, crc_byte.
+  assert (Hx : 0 <= Z.lxor c b) by (apply Z.lxor_nonneg; lia).
+  rewrite (step8_split (Z.lxor c b) Hx).
+  change 255 with (Z.ones 8). rewrite Z.land_ones by lia. change (2 ^ 8) with 256.
+  rewrite table_entry by (apply Z.mod_pos_bound; lia).
+  f_equal.
+  assert (Hd : Z.lxor c b / 256 = Z.shiftr (Z.lxor c b) 8) by (rewrite Z.shiftr_div_pow2 by lia; reflexivity).
+  rewrite Hd. rewrite Z.shiftr_lxor.
+  assert (Hb8 : Z.shiftr b 8 = 0).
+  { rewrite Z.shiftr_div_pow2 by lia. change (2 ^ 8) with 256. apply Z.div_small. lia. }
+  rewrite Hb8, Z.lxor_0_r. reflexivity.
+Qed.
+
+Lemma crc_raw_tab_eq : forall m c, in32 c -> Forall (fun b => 0 <= b < 256) m -> crc_raw_tab c m = crc_raw c m.
+Proof.
+  induction m as [|b t IH]; intros c Hc Hm; simpl; [reflexivity|].
+  inversion Hm; subst.
+  rewrite crc_byte_tab_eq by (unfold in32 in Hc; lia).
+  apply IH; [apply crc_byte_range; assumption|assumption].
+Qed.
+
+(* Go's table-driven update (simpleUpdate) computes the bit-serial CRC-32 *)
+Theorem crc32_update_tab_eq crc p : in32 crc -> Forall (fun b => 0 <= b < 256) p ->
+  crc32_update_tab crc p = crc32_update crc p.
+Proof.
+  intros Hc Hp. unfold crc32_update_tab, crc32_update. f_equal.
+  apply crc_raw_tab_eq; [|exact Hp].
+  apply lxor_range; [exact Hc|]. unfold in32, two32, mask32. lia.
+Qed.
